@@ -248,6 +248,29 @@ fn check_state(s: &St, ctx: &mut Ctx) -> Vec<St> {
     if cr != want_cr {
         viol(ctx, "as_cr", None, json!({"family": fam, "unit": UNITS[s.u as usize], "value": s.v}), format!("{want_cr:?}"), format!("{cr:?}"));
     }
+    if let (Some(c), Some(_)) = (want_cr, &back) {
+        // the naive calendar types are further routes into a date-time (round 11): NaiveDateTime,
+        // Option<NaiveDateTime> and - at midnight - NaiveDate give the same count as the zoned value
+        if chrono_ts(&c, s.u).is_some() {
+            let naive = c.naive_utc();
+            let routes: Vec<(&str, Outcome<i64>)> = by_unit!(s.u, U => {
+                let mut r = vec![
+                    ("From<NaiveDateTime>", catch(|| DateTime::<U>::from(naive).into_i64())),
+                    ("From<Option<NaiveDateTime>>", catch(|| DateTime::<U>::from(Some(naive)).into_i64())),
+                ];
+                if naive.time() == chrono::NaiveTime::MIN {
+                    r.push(("From<NaiveDate>", catch(|| DateTime::<U>::from(naive.date()).into_i64())));
+                }
+                r
+            });
+            ctx.evals += routes.len() as u64;
+            for (rname, got) in routes {
+                if !matches!(got, Outcome::Ok(x) if x == s.v) {
+                    viol(ctx, rname, None, json!({"family": fam, "unit": UNITS[s.u as usize], "value": s.v}), format!("{}", s.v), format!("{got:?}"));
+                }
+            }
+        }
+    }
     if let (Some(c), Some(b)) = (want_cr, back) {
         // round trip through the calendar type inside the representable range of the unit
         let representable = chrono_ts(&c, s.u).is_some();
@@ -491,7 +514,7 @@ fn main() {
     ctx.sample(json!({"state": {"unit": "ms", "value": -1500}, "actions": {"into_unit<s>": format!("{:?}", conv(1, 0, -1500, false)), "model": "-2 (floor, as chrono)"}}));
     ctx.sample(json!({"state": {"unit": "ns", "value": "NaT"}, "actions": {"into_unit<us>": format!("{:?}", conv(3, 2, NAT, false)), "model": "NaT"}}));
     let meta = Meta {
-        rule: "finite lattice of (unit, timestamp) states: NaT, NaT+1, i64::MAX, 0, +-1, q*r+-rho for every unit ratio r (q small and near the range limits, rho around 0, r/2 and r), the first instant of every month 1678-01..2262-03 +-1 unit; search with dedup over chains of unit conversions (into_unit and the Cast impls) up to the stated depth, every state also checked for into_opt_i64, Cast<Option<i64>>, as_cr, From<chrono>, calendar fields against chrono; plus every operator of impl_ops.rs with a NaT operand. Oracle: floor division in i128 (= chrono's timestamp of the same instant), exact multiplication when it fits (overflow: panic or NaT), NaT -> NaT / None. Non-trivial = distinct (unit, value) states. Also (DESIGN 5.15, 5.16): Cast<Option<T>> for the seven other numeric targets and Cast<f32 / f64> in every state (null iff NaT); the deprecated to_cr and TryFrom<DateTime> for the calendar type next to as_cr.".into(),
+        rule: "finite lattice of (unit, timestamp) states: NaT, NaT+1, i64::MAX, 0, +-1, q*r+-rho for every unit ratio r (q small and near the range limits, rho around 0, r/2 and r), the first instant of every month 1678-01..2262-03 +-1 unit; search with dedup over chains of unit conversions (into_unit and the Cast impls) up to the stated depth, every state also checked for into_opt_i64, Cast<Option<i64>>, as_cr, From<chrono>, calendar fields against chrono; plus every operator of impl_ops.rs with a NaT operand. Oracle: floor division in i128 (= chrono's timestamp of the same instant), exact multiplication when it fits (overflow: panic or NaT), NaT -> NaT / None. Non-trivial = distinct (unit, value) states. Also (DESIGN 5.15, 5.16): Cast<Option<T>> for the seven other numeric targets and Cast<f32 / f64> in every state (null iff NaT); the deprecated to_cr and TryFrom<DateTime> for the calendar type next to as_cr. Round 11 (DESIGN 5.20): the naive calendar routes From<NaiveDateTime>, From<Option<NaiveDateTime>>, From<NaiveDate> (at midnight) in every state that has a calendar value: the same count as the zoned route.".into(),
         bounds: json!({"units": UNITS, "root_states": n_roots, "chain_depth": depth,
             "second_engine": {"tool": "stateright 0.31 spawn_bfs, 1 thread", "unique_states": sr_states, "explorer_unique_states": explorer_states, "discoveries": sr_discoveries}}),
         assumptions: vec!["chrono is the oracle for calendar facts".into(), "conversion to a finer unit that overflows i64: panic or NaT accepted (DESIGN 5.6)".into()],
